@@ -490,6 +490,30 @@ def _old_binding(c, fn, new_name, if_stmt):
 
 def _proposals(prog):
     out = []
+    # the PCA move: proposal = current point + step, with a step whose law does not depend on the current point (a step scaled by
+    # |theta| is not symmetric and would need a Hastings correction the accept test does not have)
+    pcc, pts = prog.method("PcaChain", "take_step")
+    why_p, n_p = [], 0
+    for call in mcmc.posterior_calls(pts):
+        if not (call.args and isinstance(call.args[0], ast.Name)):
+            continue
+        pname = call.args[0].id
+        for st_ in ast.walk(pts):
+            if isinstance(st_, ast.Assign) and len(st_.targets) == 1 and isinstance(st_.targets[0], ast.Name) and st_.targets[0].id == pname \
+                    and st_.lineno < call.lineno and isinstance(st_.value, ast.BinOp) and isinstance(st_.value.op, ast.Add):
+                n_p += 1
+                sides = [st_.value.left, st_.value.right]
+                cur = [x for x in sides if isinstance(x, ast.Name)]
+                if len(cur) != 1:
+                    continue
+                step = sides[1] if sides[0] is cur[0] else sides[0]
+                dep = [U(x) for x in ast.walk(step) if (isinstance(x, ast.Name) and x.id == cur[0].id) or
+                       (isinstance(x, ast.Attribute) and U(x) in ("self.theta",)) or (isinstance(x, ast.Call) and U(x.func) == "self.get_last")]
+                if dep:
+                    why_p.append(f"line {st_.lineno}: the step `{U(step)[:80]}` depends on the current point `{dep[0]}`")
+    out.append(struct_ob("symmetric-proposal", qual(pcc, pts) + "[step-independent-of-position]", n_p >= 1 and not why_p,
+                         "the PCA proposal must be current point + a step drawn independently of the current point: " + "; ".join(why_p[:2]),
+                         pcc.module.relpath, pts.lineno, tier="F"))
     pc = prog.cls("Parameter")
     rel = pc.module.relpath
     for mname, g in (("standard_proposal", "id"), ("abs_proposal", "abs"), ("boundary_proposal", "fold")):
